@@ -9,7 +9,6 @@ import (
 	"math"
 	"os"
 	"os/exec"
-	"sort"
 	"strconv"
 	"strings"
 )
@@ -119,6 +118,6 @@ func ParseLeanResult(s string) (Result, error) {
 		}
 		r.Series = append(r.Series, rs)
 	}
-	sort.SliceStable(r.Series, func(i, j int) bool { return r.Series[i].Labels < r.Series[j].Labels })
+	sortSeries(r.Series)
 	return r, nil
 }
